@@ -58,6 +58,53 @@ let order_of_string s = List.map nint (split ',' s)
 let string_of_state st =
   String.concat "|" (List.map (fun (_, gs) -> String.concat "," (List.map (fun g -> string_of_int (int_of_n g)) gs)) st)
 
+
+(* ---- assembler ---- *)
+let line_of s = if s = "_" then [] else unhex s
+let lines_of s = if s = "-" then [] else List.map line_of (split ',' s)
+let files_of s = if s = "-" then [] else
+  List.map (fun part -> match split ':' part with
+    | [n; ls] -> (unhex n, lines_of ls)
+    | _ -> failwith "bad file map") (split ';' s)
+let z_to_int = function Z0 -> 0 | Zpos p -> int_of_pos p | Zneg p -> - (int_of_pos p)
+let string_of_result r =
+  let st = String.concat "," (List.map (fun s ->
+    Printf.sprintf "%d:%d:%s" (int_of_n s.r_addr) (int_of_n s.r_size) (hex_or_dash s.r_bytes)) r.r_stmts) in
+  let hexdig l = String.concat "" (List.map (fun d -> Printf.sprintf "%X" (int_of_n d)) l) in
+  let sy = String.concat "," (List.map (fun (n, h) -> hex_or_dash n ^ ":" ^ (match h with [] -> "-" | _ -> hexdig h)) r.r_syms) in
+  Printf.sprintf "%s %s %s %s %s" (hex_or_dash r.r_image)
+    (match r.r_origin with None -> "-" | Some v -> string_of_int (int_of_n (Model.x_v_int v)))
+    (match r.r_name with None -> "-" | Some n -> "n" ^ hex_of_bytes n)
+    (if st = "" then "-" else st) (if sy = "" then "-" else sy)
+let string_of_reg = function RX -> "X" | RY -> "Y" | RU -> "U" | RS -> "S"
+let string_of_acc = function AccA -> "A" | AccB -> "B" | AccD -> "D"
+let bs b = if b then "1" else "0"
+let string_of_idx = function
+  | IOff5 (r, o) -> Printf.sprintf "off5,%s,%d" (string_of_reg r) (z_to_int o)
+  | IZero (r, i) -> Printf.sprintf "zero,%s,%s" (string_of_reg r) (bs i)
+  | IOff8 (r, o, i) -> Printf.sprintf "off8,%s,%d,%s" (string_of_reg r) (z_to_int o) (bs i)
+  | IOff16 (r, o, i) -> Printf.sprintf "off16,%s,%d,%s" (string_of_reg r) (z_to_int o) (bs i)
+  | IAcc (a, r, i) -> Printf.sprintf "acc,%s,%s,%s" (string_of_acc a) (string_of_reg r) (bs i)
+  | IInc1 r -> Printf.sprintf "inc1,%s" (string_of_reg r)
+  | IInc2 (r, i) -> Printf.sprintf "inc2,%s,%s" (string_of_reg r) (bs i)
+  | IDec1 r -> Printf.sprintf "dec1,%s" (string_of_reg r)
+  | IDec2 (r, i) -> Printf.sprintf "dec2,%s,%s" (string_of_reg r) (bs i)
+  | IPc8 (o, i) -> Printf.sprintf "pc8,%d,%s" (z_to_int o) (bs i)
+  | IPc16 (o, i) -> Printf.sprintf "pc16,%d,%s" (z_to_int o) (bs i)
+  | IExtInd a -> Printf.sprintf "extind,%d" (int_of_n a)
+let string_of_operand = function
+  | OInh -> "inh"
+  | OImm8 v -> Printf.sprintf "imm8,%d" (int_of_n v)
+  | OImm16 v -> Printf.sprintf "imm16,%d" (int_of_n v)
+  | ODir a -> Printf.sprintf "dir,%d" (int_of_n a)
+  | OExt a -> Printf.sprintf "ext,%d" (int_of_n a)
+  | OIdx i -> "idx," ^ string_of_idx i
+  | ORel8 d -> Printf.sprintf "rel8,%d" (z_to_int d)
+  | ORel16 d -> Printf.sprintf "rel16,%d" (z_to_int d)
+  | ORegList m -> Printf.sprintf "reglist,%d" (int_of_n m)
+  | ORegPair (a, b) -> Printf.sprintf "regpair,%d,%d,%s" (int_of_n a) (int_of_n b) (bs (Model.x_regpair_legal a b))
+let ascii_of l = String.concat "" (List.map (fun c -> String.make 1 (Char.chr (int_of_n c))) l)
+
 let handle line =
   match split ' ' line with
   | ["caswrite"; fs] -> hex_or_dash (Model.x_cas_write (cfiles_of_string fs))
@@ -77,6 +124,11 @@ let handle line =
   | ["dsklist"; bs] -> string_of_res string_of_dfiles (Model.x_dsk_list (unhex bs))
   | ["dskfree"; bs] -> string_of_int (int_of_nat (Model.x_dsk_free (unhex bs)))
   | ["dsklayout"] -> if Model.x_dsk_layout_ok then "TRUE" else "FALSE"
+  | ["asm"; files; lines] -> string_of_res string_of_result (Model.x_asm (files_of files) (lines_of lines))
+  | ["decode"; bs] ->
+      (match Model.x_decode (unhex bs) with
+       | None -> "NONE"
+       | Some (i, rest) -> Printf.sprintf "SOME %s %s %d" (ascii_of (Model.x_canon i.i_mnem)) (string_of_operand i.i_op) (List.length rest))
   | _ -> "ERROR unknown command"
 
 let () =
